@@ -125,6 +125,7 @@ func evCorridor(t *Tracer, lon0, lat0, alt0, lon1, lat1, alt1, radius float64, H
 		return out
 	}
 	e.A["L"] = proj(line)
+	before := pointBits([]*object.Point{p0, p1})
 	om, rm := guard(func() (any, error) {
 		return transform.GetExtendedSpatialIdsWithinRadiusOfLine(p0, p1, radius, H, V, false)
 	})
@@ -132,6 +133,9 @@ func evCorridor(t *Tracer, lon0, lat0, alt0, lon1, lat1, alt1, radius float64, H
 		return transform.GetExtendedSpatialIdsWithinRadiusOfLine(p0, p1, radius, H, V, true)
 	})
 	e.O = om
+	if pointBits([]*object.Point{p0, p1}) != before {
+		e.Bad = pointsModified
+	}
 	if om != os_ {
 		e.Bad = "outcomes differ between the two flag values: " + om + "/" + os_
 	}
